@@ -166,5 +166,5 @@ def check(ctx: Ctx) -> None:
     merge_obligations(ctx, "C03")
     setitem_obligations(ctx, "C03")
     helper_obligations(ctx, "C03")
-    check_escape_function(ctx, ["attr"], "C03")
+    check_escape_function(ctx, ["attr"], "C03", strict_other=True)
     check_escape_tables(ctx, "C03", attr=True)
